@@ -16,4 +16,4 @@ Extraction "c12_model.ml"
   c12_set_all c12_plain_arg c12_spec_named_positional c12_named_pair c12_spec_named_only c12_spec_read_named
   c12_vkeys c12_skeys c12_node c12_sub_const c12_sub_mut c12_report_lines c12_extract_double
   c12_extract_word c12_extract_char c12_spec_read_options c12_spec_uint
-  c12_in_sub c12_rline_ok c12_rl_assigns c12_report_rlines c12_hierarchy c12_parse_ini_lines.
+  c12_read_options_n c12_tree_assign c12_options_scan c12_in_sub c12_rline_ok c12_rl_assigns c12_report_rlines c12_hierarchy c12_parse_ini_lines.
